@@ -206,7 +206,7 @@ func (s *sys) guarded(site *string, f func() *hs.Mismatch) *hs.Mismatch {
 	case <-time.After(hangGrace):
 	}
 	start := time.Now()
-	same, last := 0, ""
+	same, last, verdict := 0, "", false
 	for time.Since(start) < hangGiveUp {
 		select {
 		case m := <-done:
@@ -221,10 +221,14 @@ func (s *sys) guarded(site *string, f func() *hs.Mismatch) *hs.Mismatch {
 		}
 		last = st
 		if st != "" && same >= hangSamples-1 {
+			verdict = true
 			break
 		}
 	}
 	s.dead = true // the blocked goroutine still owns the store
+	if !verdict {
+		return &hs.Mismatch{Kind: "call|no-return", Detail: fmt.Sprintf("call did not return within %v although its goroutine was not seen parked for good (in %s)", hangGiveUp+hangGrace, *site)}
+	}
 	// the blocked call is the victim, not the culprit (an earlier call left
 	// a lock behind), so the site is not part of the signature
 	return &hs.Mismatch{Kind: "call|hang", Detail: fmt.Sprintf("call blocked for good (parked on a channel/lock with nothing else runnable for %v) in %s", time.Since(start)+hangGrace, *site)}
